@@ -140,6 +140,7 @@ func init() {
 			{Name: "random", TShards: 4, Run: c05Random},
 			{Name: "deep", Run: c05Deep},
 			{Name: "sequences", TShards: 2, Run: c05Sequences},
+			{Name: "long", TShards: 2, Run: c05Long},
 		},
 	})
 }
@@ -333,6 +334,34 @@ func c05Sequences(c *Ctx) {
 			if nt >= 2 {
 				k.Nontrivial(text.Bytes())
 			}
+		})
+	}
+}
+
+// c05Long: names longer than the usual I/O buffers, quoted and unquoted.
+func c05Long(c *Ctx) {
+	n := c.N(100, 2000)
+	for i := 0; i < n; i++ {
+		c.Case(int64(i), func(k *K) {
+			r := k.Rand()
+			root, nodes := randomTree(r, 1+r.IntN(8), r.IntN(4))
+			decorate(r, nodes)
+			nd := nodes[r.IntN(len(nodes))]
+			l := longSize(r)
+			switch r.IntN(3) {
+			case 0:
+				nd.Name = string(randBytesExcl(r, l, nil))
+			case 1:
+				nd.Name = string(randSeq(r, []byte("abcdefghijklmnopqrstuvwxyz"), l))
+			default:
+				nd.Name = string(randSeq(r, []byte("abcdefghij  '"), l))
+			}
+			k.Input("long_name_len", l)
+			k.Input("tree", func() string { return fmt.Sprintf("%.600s", treeKey(root)) })
+			txt := newickRoundTrip(k, root)
+			k.Count("trees_roundtripped", 1)
+			k.Count("long_names", 1)
+			k.Nontrivial(txt)
 		})
 	}
 }
